@@ -51,6 +51,7 @@ CONSTANTS
   Depth = {depth}
   GEN = {gen}
 INVARIANTS FwdOnlyAuthorised FwdNeverForged EncOnlyAuthorised HsOnlyAuthorised Attribution OneToOne AuthRefines AuthExact Emit
+PROPERTIES RegisterKeepsTunnels RenewalIsSeamless
 """
 
 
@@ -167,6 +168,53 @@ def judge_step(c, key, spec, real, stats, rep):
     return True
 
 
+def judge_client(c, rc, so, path):
+    """Growth (DESIGN.md 6.6): the real client side (SnapTunEndpoint + identity registration loop + SnapTunnel driver)
+    against the real gateway and control plane, in real time.  Safety part = C09 itself (nothing flows once every
+    registration has lapsed); growth part = a renewal published in time keeps the identity registered and the traffic
+    flowing, under ONE token key.  Only observations whose timing was valid on this machine are judged."""
+    if rc != 0 or not os.path.exists(path):
+        c.drift("client scenario failed rc=%s %s" % (rc, (so or "")[-300:]))
+        return
+    g = json.load(open(path))
+    c.cov["client_scenario"] = g
+    if not g.get("connected"):
+        c.drift("client scenario: the real client could not connect (%s)" % g.get("why"))
+        return
+    steps = {x["step"]: x["count"] for x in g["log"]}
+    probes = {p["at"]: p for p in g["probes"]}
+    calls = g["control_plane_calls"]
+    if any(x["status"] != 200 for x in calls):
+        c.drift("client scenario: control plane answered %s" % [x["status"] for x in calls])
+    life = {"tok-1": g["life1"], "tok-2": g["life2"]}
+    last_end = max([x["t"] + life.get(x["jti"], g["life2"]) for x in calls if x["status"] == 200] or [0])
+    # ---- safety (C09): after every registration has lapsed (>= 5 s ago) nothing flows
+    if g["phase_c_start_s"] >= last_end + 5:
+        if steps.get("C:in") or steps.get("C:out") or probes["C"]["authorised"]:
+            c.violation("client:flow-after-lapse", "real client/gateway: traffic or authorisation %s after the last registration lapsed" % json.dumps(
+                {"C:in": steps.get("C:in"), "C:out": steps.get("C:out"), "authorised": probes["C"]["authorised"]}), g)
+    else:
+        c.drift("client scenario: phase C started too early relative to the last registration; not judged")
+    # ---- growth: renewal before expiry is seamless
+    renewed = g.get("renewed_after_s")
+    on_time = renewed is not None and renewed + g["phase_a_done_s"] + 1 <= g["life1"] - 6 and g["phase_b_done_s"] <= g["life2"] - 6 \
+        and all(x["status"] == 200 for x in calls)
+    if renewed is None:
+        c.violation("client:no-reregistration", "the endpoint's registration loop did not register again within 5 s after the token source published a renewed token", g)
+    elif not on_time:
+        c.drift("client scenario: renewal/phase B too slow on this machine (renewed after %.1fs, phase B done %.1fs); growth part not judged" % (renewed, g["phase_b_done_s"]))
+    else:
+        if not probes["B"]["authorised"] or steps.get("B:in") != 1 or steps.get("B:out") != 1:
+            c.violation("client:renewal-gap", "the registration was renewed in time, yet %s after the first token lapsed" % json.dumps(
+                {"authorised": probes["B"]["authorised"], "B:in": steps.get("B:in"), "B:out": steps.get("B:out")}), g)
+        if g["assoc_after_renew"] != [["tok-2", True]] or g["sessions_after_renew"] != 1:
+            c.violation("client:old-token-key-kept", "after the renewal the registry holds %s / %d sessions (expected exactly the new token key)" % (
+                g["assoc_after_renew"], g["sessions_after_renew"]), g)
+        if steps.get("A:in") != 1 or steps.get("A:out") != 1:
+            c.drift("client scenario: phase A traffic %s" % json.dumps(steps))
+    c.cov["evaluations"] += len(g["log"])
+
+
 def run(c):
     thorough = c.tier == "thorough"
     binp = c.cargo_build("vh-snap", bin="snaptunnel")
@@ -278,7 +326,13 @@ def run(c):
     # >= 5 s after the expiry and dispatched before the re-registration started; anything sent after the
     # supersession).  Missing or late positive observations and any failure of the run itself are drift.
     gout = os.path.join(c.work, "gateway.json")
-    rc, so = c.sh([binp, "gateway", gout], timeout=1800)
+    cout = os.path.join(c.work, "client.json")
+    from concurrent.futures import ThreadPoolExecutor
+    with ThreadPoolExecutor(2) as ex:       # both scenarios mostly sleep: run them side by side
+        fg = ex.submit(c.sh, [binp, "gateway", gout], 1800)
+        fc = ex.submit(c.sh, [binp, "client", cout], 1800)
+        (rc, so), (rcc, soc) = fg.result(), fc.result()
+    judge_client(c, rcc, soc, cout)
     if rc != 0 or not os.path.exists(gout):
         c.drift("gateway loop run failed rc=%s %s" % (rc, (so or "")[-300:]))
     else:
